@@ -17,6 +17,9 @@ CHECKS = {
  "C05": dict(cat="exploration", technique="exhaustive enumeration of token strings up to a length bound, of every depth of 68 nesting families, and of all single-token mutations of a program corpus, each prepared by the real parser/compiler in isolated workers with a deterministic parser-work counter",
     text="All token strings of <=3 (thorough <=4) tokens over an 89-token JS/TS vocabulary and <=4 (<=5) over a 30-token one, joined with and without spaces, in script and module mode (6.3 M / 350 M parses); every depth 1..40 and doubling to 8192 (131072) of 68 nesting families incl. hostile speculative-parse families; every prefix, single-token deletion and replacement of 90 corpus programs; all 1-2 character strings over 42 characters in 14 lexical contexts. Oracle per text: prepare() returns Ok or Err - never a panic, a dead/hung worker, or more than 64*len^2+4096 token advances. Exploration with a deterministic work bound decides 'accepted or rejected cleanly, in polynomial time' for every enumerated text.",
     note="8 MiB stack / 4 GiB address space per worker; &str API, so only valid UTF-8; polynomial bound is checked as the fixed quadratic budget above.", ref="DESIGN.md section 5 C05"),
+ "C10": dict(cat="exploration", technique="exhaustive enumeration of every size n in dense windows around the internal widths (2^7, 2^8, 2^15, 2^16) for 35 construct families, self-checking programs with closed-form expected values, run on an overflow-checked and a release-like build",
+    text="For each of 35 construct families (literals, argument/parameter lists, templates, patterns, chains, switch cases, class/enum members, sequences of statements/declarations/calls, distinct constants, jump distances, string/array lengths), alone and embedded between live temporaries, every size in the windows (quick: ~100 sizes per family; thorough: every n in 0..600 for register-bound families, windows of +-40 around 2^15/2^16 and a ladder to 100000 for the others) is compiled and run on both builds; accepted outcomes are the closed-form value or, for a single oversized construct, an explicit prepare() error; sequence families must never be refused. Complete within the stated size sets.",
+    note="Closed forms are computed by the generator; a prepare()-time Err is taken as an explicit limit error. Sizes beyond 100000 are not covered.", ref="DESIGN.md section 5 C10"),
 }
 NA_DEFAULT = "check not built yet (build in progress; see DESIGN.md section 8)"
 NA = {}
